@@ -288,12 +288,8 @@ Print Assumptions C12_nostd_gap_small.
 
 (** * what the integer enclosure statements mean over the reals (log2R x = ln x / ln 2) *)
 From Coq Require Import Reals.
-Theorem C12_log2_lb_holds_real : forall m k p q, (0 < p)%Z -> (0 < q)%Z ->
-  log2_lb_holds m k p q <-> (IZR m / 2 ^ k <= log2R (IZR p / IZR q))%R.
-Proof. exact log2_lb_holds_real. Qed.
-Print Assumptions C12_log2_lb_holds_real.
-
-Theorem C12_log2_ub_holds_real : forall m k p q, (0 < p)%Z -> (0 < q)%Z ->
-  log2_ub_holds m k p q <-> (log2R (IZR p / IZR q) <= IZR m / 2 ^ k)%R.
-Proof. exact log2_ub_holds_real. Qed.
-Print Assumptions C12_log2_ub_holds_real.
+Theorem C12_log2_holds_real : forall m k p q, (0 < p)%Z -> (0 < q)%Z ->
+  (log2_lb_holds m k p q <-> (IZR m / 2 ^ k <= log2R (IZR p / IZR q))%R) /\
+  (log2_ub_holds m k p q <-> (log2R (IZR p / IZR q) <= IZR m / 2 ^ k)%R).
+Proof. intros m k p q Hp Hq. split; [exact (log2_lb_holds_real m k p q Hp Hq) | exact (log2_ub_holds_real m k p q Hp Hq)]. Qed.
+Print Assumptions C12_log2_holds_real.
